@@ -324,3 +324,10 @@ package receiver
 //@ fieldinv receiver.File.Name: hasSuffix(v, "/") ==> v == "/"
 //@ func (*receiver.Transfer).deleteFiles$1
 //@   requires[C05] [walked-name-without-trailing-slash] !hasSuffix(path, "/")
+
+// ---------------------------------------------------------------- C11: device numbers and type of a created node
+// A device node is made with the device number that was sent and the
+// permission bits of the entry; the node type follows the entry's type bits.
+//@ func (*receiver.Transfer).createDevice
+//@   at[C11] golang.org/x/sys/unix.Mknodat: assert [device-number-and-permissions-as-sent] arg3 == f.Rdev && mod(arg2, 4096) == mod(f.Mode, 512) && (div(arg2, 4096) == 2 <==> mod(div(f.Mode, 4096), 16) == 2) && (div(arg2, 4096) == 6 <==> mod(div(f.Mode, 4096), 16) == 6)
+//@   at[C11] golang.org/x/sys/unix.Mkfifoat: assert [fifo-for-a-fifo-entry] mod(div(f.Mode, 4096), 16) == 1 && arg2 == mod(f.Mode, 512)
